@@ -130,7 +130,9 @@ def gen_rounds(seed, tier, run):
     for a, b in itertools.product(atoms, repeat=2):
         out3.append(f"tuple_text {sarr([2], [a, b])}")
         out3.append(f"list_text {sarr([2], [a, b])}")
-    for t in itertools.product(atoms[:5], repeat=3):
+    # every atom — the empty string and the blank ones included — in every position of a triple (seeded change C18i:
+    # split_terminator drops an empty last component)
+    for t in itertools.product(atoms, repeat=3):
         out3.append(f"tuple_text {sarr([3], list(t))}")
         out3.append(f"list_text {sarr([3], list(t))}")
     for a in atoms:
